@@ -7,9 +7,10 @@ demonstration fails with it and passes without it; then runs the check(s); write
 import sys, os, subprocess, shutil, tempfile, json, re
 prop, n = sys.argv[1], sys.argv[2]
 checks = sys.argv[3:] or [prop]
+tag = os.environ.get("KV_SEED_TAG", "")  # e.g. "r2-" for the second round of seeding
 src = f"/tmp/seed/{prop}/out/{n}"
-if not os.path.exists(src + "/patch.diff"):
-    src = f"/verif/seeded/{prop}-{n}"  # already kept: re-evaluate from the stored copy
+if not os.path.exists(src + "/patch.diff") or (tag == "" and os.path.exists(f"/verif/seeded/{prop}-{n}/patch.diff")):
+    src = f"/verif/seeded/{prop}-{tag}{n}"  # already kept: re-evaluate from the stored copy
 env = dict(os.environ, GOFLAGS="-mod=mod", GOPROXY="off", GOSUMDB="off", GOTOOLCHAIN="local")
 def run(cmd, cwd, timeout=600):
     p = subprocess.run(cmd, cwd=cwd, env=env, shell=True, capture_output=True, text=True, errors="replace", timeout=timeout)
@@ -54,7 +55,7 @@ finally:
 ok = res.get("demo_passes_on_original") and res.get("patch_applies") and res.get("builds") and res.get("suite_passes_with_change") and res.get("demo_fails_with_change")
 res["confirmed"] = bool(ok)
 res["caught_by"] = [c for c, r in res.get("checks", {}).items() if r["violations"]]
-out = f"/verif/seeded/{prop}-{n}"
+out = f"/verif/seeded/{prop}-{tag}{n}"
 os.makedirs(out, exist_ok=True)
 if ok:
     notes = open(f"{src}/notes.md").read() if os.path.exists(f"{src}/notes.md") else ""
